@@ -101,8 +101,8 @@ impl<'a> Utf8WindowsComponents<'a> {
             self.prefix_kind(),
             Some(
                 Utf8WindowsPrefix::Verbatim(_)
-                    | Utf8WindowsPrefix::UNC(..)
-                    | Utf8WindowsPrefix::Disk(_)
+                    | Utf8WindowsPrefix::VerbatimUNC(..)
+                    | Utf8WindowsPrefix::VerbatimDisk(_)
             )
         )
     }
